@@ -31,7 +31,7 @@ type mnamesEvent struct {
 	TitleEn  string            `json:"title_en"`
 	Vals     map[string]string `json:"vals"`
 	ValsEn   map[string]string `json:"vals_en"`
-	Oor      []string          `json:"oor"`    // names of the unknown value and of integers that are no constant
+	Oor      []string          `json:"oor"` // names of the unknown value and of integers that are no constant
 	OorEn    []string          `json:"oor_en"`
 	UnkRef   string            `json:"unk_ref"` // the name AttackVector gives its unknown value in this language
 	BaseVals map[string]string `json:"base_vals"`
